@@ -93,3 +93,8 @@ CHECKS["C15"] = {
   "note": "No OpenCL/CUDA toolchain in the sandbox: host compilers stand in, as the statement allows; GPU contexts cannot be instantiated, their source assembly is transcribed.",
   "technique": "property-based differential testing of generated code across targets: token-stream comparison, qualifier scan, host compilation and execution",
 }
+CHECKS["C17"] = {
+  "text": "Exploration: generated kernel signatures (1-6 arguments: the 10 scalar kinds by value; pointer-to-scalar with 1-D / sliced / strided / reversed / 2-D row-block / F-ordered / column-block / transposed ndarrays and static, dynamic and 2-D xobject arrays; Struct / Array / UnionRef / HybridClass xobjects sharing one buffer at non-zero offsets; optional scalar return) with generated echo-kernel C source, built by ctx.add_kernels and called through ctx.kernels on serial and OpenMP contexts, before and after 0-2 buffer growths. Oracle: byte-exact scalars, pointer == independently computed address of the first element / of the object's first byte at its current location, bytes behind it, one flipped byte per pointer exactly there and nothing else changed, bit-exact return value; positional / missing / extra / misspelt / wrong-element-type calls raise and change nothing. 16 workers x 50 / 800 signatures.",
+  "note": "Values exactly representable in the declared C type; CPU contexts; a wild pointer that kills the interpreter is reported through the runner's crash triage with the replayable case.",
+  "technique": "property-based testing with generated kernels: echo-kernel differential against byte-level expectations",
+}
